@@ -154,108 +154,57 @@ Qed.
 Theorem ids_stable_all_histories : forall steps os, hist_ok empty_model (run_steps empty_model steps os).
 Proof. intros. apply run_steps_hist_ok. apply wf_model_nil. Qed.
 
-(* ------------------------------------------------------------------ where refusals come from *)
-Lemma upd_field_err : forall qfs f e, snd (upd_field qfs f) = Some e -> in_loop_err (Some e) = true.
+(* ------------------------------------------------------------------ a refused version changes nothing *)
+Theorem refused_changes_nothing : forall o sys M v e, snd (upd o sys M v) = Some e -> fst (upd o sys M v) = M.
 Proof.
-  intros qfs f e H. unfold upd_field in H. destruct (find_field (f_name f) qfs) as [g|]; [|inversion H; reflexivity].
-  destruct (negb (N.eqb (f_short f) (f_short g))); [inversion H; reflexivity|].
-  destruct (negb (ftype_eqb (f_type f) (f_type g))); [inversion H; reflexivity|].
-  destruct (f_nullable f && needs_default (f_nullable g) (f_default g) (f_type f)); [inversion H; reflexivity | discriminate].
-Qed.
-Lemma insert_new_err : forall news fs e, snd (insert_new news fs) = Some e -> e = EMissingDefault.
-Proof.
-  induction news as [|g news IH]; intros fs e H; cbn [insert_new] in H; [discriminate|].
-  destruct (needs_default (f_nullable g) (f_default g) (f_type g)); [inversion H; reflexivity | eapply IH; exact H].
-Qed.
-Lemma entity_update_err : forall o nsn e q x, snd (entity_update o nsn e q) = Some x -> in_loop_err (Some x) = true.
-Proof.
-  intros o nsn e q x H. unfold entity_update in H.
-  destruct (loop f_name (o_fld o nsn (e_name e)) (upd_field (e_fields q)) (e_fields e)) as [fs1 er1] eqn:Hl.
-  destruct er1 as [y|].
-  - cbn in H. inversion H. subst y.
-    assert (Hs : snd (loop f_name (o_fld o nsn (e_name e)) (upd_field (e_fields q)) (e_fields e)) = Some x) by (rewrite Hl; reflexivity).
-    apply loop_err_from in Hs. destruct Hs as [a [_ Ha]]. eapply upd_field_err. exact Ha.
-  - destruct (insert_new (sort_by (fun f => o_new o nsn (e_name e) (f_name f)) (new_fields e q)) fs1) as [fs2 er2] eqn:Hi.
-    destruct er2 as [y|]; [|discriminate]. cbn in H. inversion H. subst y.
-    assert (Hs : snd (insert_new (sort_by (fun f => o_new o nsn (e_name e) (f_name f)) (new_fields e q)) fs1) = Some x) by (rewrite Hi; reflexivity).
-    apply insert_new_err in Hs. subst. reflexivity.
-Qed.
-Lemma upd_ent_err : forall o nsn qes e x, snd (upd_ent o nsn qes e) = Some x -> in_loop_err (Some x) = true.
-Proof.
-  intros o nsn qes e x H. unfold upd_ent in H. destruct (find_ent (e_name e) qes) as [q|]; [|inversion H; reflexivity].
-  destruct (negb (short_eqb (e_short e) (e_short q))); [inversion H; reflexivity | eapply entity_update_err; exact H].
-Qed.
-Lemma upd_ns_err : forall o sys P n x, snd (upd_ns o sys P n) = Some x -> in_loop_err (Some x) = true.
-Proof.
-  intros o sys P n x H. unfold upd_ns in H. destruct (find_ns (n_name n) P) as [p|].
-  - destruct (negb (N.eqb (n_id p) (n_id n))); [inversion H; reflexivity|].
-    destruct (loop e_name (o_ent o (n_name n)) (upd_ent o (n_name n) (n_ents p)) (n_ents n)) as [es er] eqn:Hl.
-    destruct er as [y|]; [|discriminate]. cbn in H. inversion H. subst y.
-    assert (Hs : snd (loop e_name (o_ent o (n_name n)) (upd_ent o (n_name n) (n_ents p)) (n_ents n)) = Some x) by (rewrite Hl; reflexivity).
-    apply loop_err_from in Hs. destruct Hs as [a [_ Ha]]. eapply upd_ent_err. exact Ha.
-  - cbn in H. destruct (negb sys && negb (N.eqb (n_name n) 1)); [inversion H; reflexivity | discriminate].
+  intros o sys M v e H. destruct (upd_cases o sys M v) as [[Ha Hu] | [x [_ Hu]]].
+  - rewrite Hu, Ha in H. discriminate.
+  - rewrite Hu. reflexivity.
 Qed.
 
-(* a version refused before the in-place loops (syntax / consistency / namespace rule) changes nothing *)
-Theorem refused_outside_loops_changes_nothing : forall o sys M v e,
-  snd (upd o sys M v) = Some e -> in_loop_err (Some e) = false -> fst (upd o sys M v) = M.
+Theorem run_steps_refused_unchanged : forall steps os M, refused_unchanged M (run_steps M steps os).
 Proof.
-  intros o sys M v e H Hnl. unfold upd in *. destruct (parse (if sys then 0 else 1) v) as [P|pe]; [|reflexivity].
-  destruct (ns_check_fails sys P); [reflexivity|].
-  destruct (loop n_name (o_ns o) (upd_ns o sys P) (m_nss M)) as [nss er] eqn:Hl.
-  destruct er as [y|]; [|discriminate]. cbn in H. inversion H. subst y. exfalso.
-  assert (Hs : snd (loop n_name (o_ns o) (upd_ns o sys P) (m_nss M)) = Some e) by (rewrite Hl; reflexivity).
-  apply loop_err_from in Hs. destruct Hs as [a [_ Ha]]. apply upd_ns_err in Ha. congruence.
+  induction steps as [|s steps IH]; intros os M; cbn [run_steps]; [exact I|].
+  destruct (upd (hd zero_oracle os) (s_sys s) M (s_ver s)) as [M1 e1] eqn:H1.
+  cbn [refused_unchanged]. split; [|apply IH].
+  intros Hne. destruct e1 as [e|]; [|congruence].
+  pose proof (refused_changes_nothing (hd zero_oracle os) (s_sys s) M (s_ver s) e) as Hr.
+  rewrite H1 in Hr. apply Hr. reflexivity.
 Qed.
 
-(* ------------------------------------------------------------------ determinism outside K1 *)
-Lemma entity_update_det : forall o1 o2 nsn e q, (length (new_fields e q) <= 1)%nat ->
+(* ------------------------------------------------------------------ the iteration orders do not matter *)
+Lemma entity_update_det : forall o1 o2 nsn e q,
   snd (entity_update o1 nsn e q) = None -> entity_update o2 nsn e q = entity_update o1 nsn e q.
 Proof.
-  intros o1 o2 nsn e q Hlen Hok. unfold entity_update in *.
+  intros o1 o2 nsn e q Hok. unfold entity_update in *.
   destruct (loop f_name (o_fld o1 nsn (e_name e)) (upd_field (e_fields q)) (e_fields e)) as [fs1 er1] eqn:Hl.
   destruct er1 as [y|]; [discriminate|].
   rewrite (loop_deterministic _ f_name (upd_field (e_fields q)) (upd_field (e_fields q)) (o_fld o1 nsn (e_name e)) (o_fld o2 nsn (e_name e)));
     [|reflexivity | rewrite Hl; reflexivity].
-  rewrite Hl. rewrite !sort_by_short by exact Hlen. reflexivity.
+  rewrite Hl. reflexivity.
 Qed.
 Lemma upd_ent_det : forall o1 o2 nsn qes e,
-  (forall q, find_ent (e_name e) qes = Some q -> (length (new_fields e q) <= 1)%nat) ->
   snd (upd_ent o1 nsn qes e) = None -> upd_ent o2 nsn qes e = upd_ent o1 nsn qes e.
 Proof.
-  intros o1 o2 nsn qes e Hlen Hok. unfold upd_ent in *. destruct (find_ent (e_name e) qes) as [q|]; [|reflexivity].
-  destruct (negb (short_eqb (e_short e) (e_short q))); [reflexivity|]. apply entity_update_det; [apply Hlen; reflexivity | exact Hok].
+  intros o1 o2 nsn qes e Hok. unfold upd_ent in *. destruct (find_ent (e_name e) qes) as [q|]; [|reflexivity].
+  destruct (negb (short_eqb (e_short e) (e_short q))); [reflexivity|]. apply entity_update_det. exact Hok.
 Qed.
-Definition ns_single_new (n : nspace) (P : list nspace) : Prop :=
-  forall p, find_ns (n_name n) P = Some p -> forall e, In e (n_ents n) ->
-  forall q, find_ent (e_name e) (n_ents p) = Some q -> (length (new_fields e q) <= 1)%nat.
-Lemma upd_ns_det : forall o1 o2 sys P n, ns_single_new n P ->
+Lemma upd_ns_det : forall o1 o2 sys P n,
   snd (upd_ns o1 sys P n) = None -> upd_ns o2 sys P n = upd_ns o1 sys P n.
 Proof.
-  intros o1 o2 sys P n Hsn Hok. unfold upd_ns in *. destruct (find_ns (n_name n) P) as [p|] eqn:Hf; [|reflexivity].
+  intros o1 o2 sys P n Hok. unfold upd_ns in *. destruct (find_ns (n_name n) P) as [p|] eqn:Hf; [|reflexivity].
   destruct (negb (N.eqb (n_id p) (n_id n))); [reflexivity|].
   destruct (loop e_name (o_ent o1 (n_name n)) (upd_ent o1 (n_name n) (n_ents p)) (n_ents n)) as [es er] eqn:Hl.
   destruct er as [y|]; [discriminate|].
   rewrite (loop_deterministic _ e_name (upd_ent o1 (n_name n) (n_ents p)) (upd_ent o2 (n_name n) (n_ents p)) (o_ent o1 (n_name n)) (o_ent o2 (n_name n)));
     [rewrite Hl; reflexivity | | rewrite Hl; reflexivity].
   intros a Ha. symmetry. apply upd_ent_det.
-  - intros q Hq. apply (Hsn p Hf a Ha q Hq).
-  - apply (loop_ok_all e_name (upd_ent o1 (n_name n) (n_ents p)) (o_ent o1 (n_name n)) (n_ents n)); [rewrite Hl; reflexivity | exact Ha].
+  apply (loop_ok_all e_name (upd_ent o1 (n_name n) (n_ents p)) (o_ent o1 (n_name n)) (n_ents n)); [rewrite Hl; reflexivity | exact Ha].
 Qed.
-
-Lemma multi_new_false : forall M P, multi_new M P = false -> forall n, In n M -> ns_single_new n P.
+Lemma apply_upd_det : forall o1 o2 sys M v,
+  snd (apply_upd o1 sys M v) = None -> apply_upd o2 sys M v = apply_upd o1 sys M v.
 Proof.
-  intros M P H n Hn p Hp e He q Hq. unfold multi_new in H.
-  pose proof (existsb_false_all _ _ _ H n Hn) as H1. cbn beta in H1. rewrite Hp in H1.
-  pose proof (existsb_false_all _ _ _ H1 e He) as H2. cbn beta in H2. rewrite Hq in H2.
-  apply N.leb_gt in H2. unfold len in H2. lia.
-Qed.
-
-(* outside K1 an accepted version gives the same model whatever the iteration orders *)
-Theorem upd_det : forall o1 o2 sys M v, k1_step M (mkS sys v) = false ->
-  snd (upd o1 sys M v) = None -> upd o2 sys M v = upd o1 sys M v.
-Proof.
-  intros o1 o2 sys M v Hk Hok. unfold k1_step in Hk. cbn [s_sys s_ver] in Hk. unfold upd in *.
+  intros o1 o2 sys M v Hok. unfold apply_upd in *.
   destruct (parse (if sys then 0 else 1) v) as [P|pe]; [|reflexivity].
   destruct (ns_check_fails sys P); [reflexivity|].
   destruct (loop n_name (o_ns o1) (upd_ns o1 sys P) (m_nss M)) as [nss er] eqn:Hl.
@@ -263,114 +212,71 @@ Proof.
   rewrite (loop_deterministic _ n_name (upd_ns o1 sys P) (upd_ns o2 sys P) (o_ns o1) (o_ns o2));
     [rewrite Hl; reflexivity | | rewrite Hl; reflexivity].
   intros a Ha. symmetry. apply upd_ns_det.
-  - apply (multi_new_false _ _ Hk a Ha).
-  - apply (loop_ok_all n_name (upd_ns o1 sys P) (o_ns o1) (m_nss M)); [rewrite Hl; reflexivity | exact Ha].
+  apply (loop_ok_all n_name (upd_ns o1 sys P) (o_ns o1) (m_nss M)); [rewrite Hl; reflexivity | exact Ha].
 Qed.
 
-(* ... and so does a version refused before the loops *)
-Lemma upd_det_gen : forall o1 o2 sys M v, k1_step M (mkS sys v) = false ->
-  in_loop_err (snd (upd o1 sys M v)) = false -> upd o2 sys M v = upd o1 sys M v.
+(* whether a version is accepted, and the model afterwards, do not depend on the iteration orders *)
+Theorem upd_outcome_det : forall o1 o2 sys M v,
+  is_none (snd (upd o1 sys M v)) = is_none (snd (upd o2 sys M v)) /\ fst (upd o1 sys M v) = fst (upd o2 sys M v).
 Proof.
-  intros o1 o2 sys M v Hk Hnl. destruct (snd (upd o1 sys M v)) as [e|] eqn:Hs; [|apply upd_det; assumption].
-  unfold upd in *. destruct (parse (if sys then 0 else 1) v) as [P|pe]; [|reflexivity].
-  destruct (ns_check_fails sys P); [reflexivity|].
-  destruct (loop n_name (o_ns o1) (upd_ns o1 sys P) (m_nss M)) as [nss er] eqn:Hl.
-  destruct er as [y|]; [|discriminate]. cbn in Hs. inversion Hs. subst y. exfalso.
-  assert (Hs' : snd (loop n_name (o_ns o1) (upd_ns o1 sys P) (m_nss M)) = Some e) by (rewrite Hl; reflexivity).
-  apply loop_err_from in Hs'. destruct Hs' as [a [_ Ha]]. apply upd_ns_err in Ha. congruence.
+  intros o1 o2 sys M v.
+  destruct (upd_cases o1 sys M v) as [[Ha1 Hu1] | [x1 [Ha1 Hu1]]].
+  - pose proof (apply_upd_det o1 o2 sys M v Ha1) as Hd. unfold upd. rewrite Hd. split; reflexivity.
+  - destruct (upd_cases o2 sys M v) as [[Ha2 Hu2] | [x2 [Ha2 Hu2]]].
+    + pose proof (apply_upd_det o2 o1 sys M v Ha2) as Hd. rewrite Hd, Ha2 in Ha1. discriminate.
+    + rewrite Hu1, Hu2. split; reflexivity.
 Qed.
 
-(* peers that apply the same versions — none of them of class K1 or K2 — hold the same models *)
-Theorem run_steps_det : forall steps os1 os2 M,
-  known_steps M steps os1 = (false, false) -> run_steps M steps os2 = run_steps M steps os1.
+Theorem run_steps_outcome_det : forall steps os1 os2 M,
+  map outcome (run_steps M steps os1) = map outcome (run_steps M steps os2).
 Proof.
-  induction steps as [|s steps IH]; intros os1 os2 M Hk; cbn [run_steps]; [reflexivity|].
-  cbn [known_steps] in Hk.
-  destruct (upd (hd zero_oracle os1) (s_sys s) M (s_ver s)) as [M1 e1] eqn:H1.
-  destruct (known_steps M1 steps (tl os1)) as [k1 k2] eqn:Hks.
-  injection Hk as Hk1 Hk2. apply orb_false_iff in Hk1. apply orb_false_iff in Hk2.
-  destruct Hk1 as [Hk1a Hk1b]. destruct Hk2 as [Hk2a Hk2b]. subst k1 k2.
-  assert (Hs : s = mkS (s_sys s) (s_ver s)) by (destruct s; reflexivity).
-  rewrite Hs in Hk1a.
-  rewrite (upd_det_gen (hd zero_oracle os1) (hd zero_oracle os2) (s_sys s) M (s_ver s) Hk1a); [|rewrite H1; exact Hk2a].
-  rewrite H1. f_equal. apply IH. exact Hks.
+  induction steps as [|s steps IH]; intros os1 os2 M; cbn [run_steps]; [reflexivity|].
+  destruct (upd_outcome_det (hd zero_oracle os1) (hd zero_oracle os2) (s_sys s) M (s_ver s)) as [He HM].
+  destruct (upd (hd zero_oracle os1) (s_sys s) M (s_ver s)) as [M1 e1].
+  destruct (upd (hd zero_oracle os2) (s_sys s) M (s_ver s)) as [M2 e2].
+  cbn [fst snd] in He, HM. subst M2.
+  cbn [map]. f_equal; [unfold outcome; cbn [fst snd]; rewrite He; reflexivity | apply IH].
 Qed.
 
-(* ------------------------------------------------------------------ closed witnesses *)
+(* ------------------------------------------------------------------ regression witnesses (former defects) *)
 Definition fS (k : N) : fdecl := mkFD k TStr None false false.       (* fk: String *)
 Definition fSn (k : N) : fdecl := mkFD k TStr None true false.       (* fk: String nullable *)
 Definition w_v1 : version := mkV 1 [(2, [mkED 1 false true [fS 1] []])].
-Definition w_v2 : version := mkV 2 [(2, [mkED 1 false true [fS 1; fSn 2; fSn 3] []])].
-Definition w_text_order : otab := mkOT [] [] [] [(2, 1, 2, 0); (2, 1, 3, 1)].
-Definition w_other_order : otab := mkOT [] [] [] [(2, 1, 2, 1); (2, 1, 3, 0)].
-Definition w_none : otab := mkOT [] [] [] [].
+Definition w_v2 : version := mkV 2 [(2, [mkED 1 false true [fS 1; fSn 3; fSn 2] []])].
+Definition w_none : otab := mkOT [] [] [].
 Definition w_steps : list step := [mkS false w_v1; mkS false w_v2; mkS false w_v2].
+Definition field_ids (M : dmodel) : list (N * N) :=
+  flat_map (fun n => flat_map (fun e => map (fun f => (f_name f, f_short f)) (e_fields e)) (n_ents n)) (m_nss M).
 
-(* K1: two peers accept the same two versions and end with different field identifiers; the one
-   whose hash map did not follow the text then refuses the very same text (what a restart does) *)
-Lemma k1_witness :
-  let a := run_steps empty_model w_steps (map oracle_of [w_none; w_text_order; w_none]) in
-  let b := run_steps empty_model w_steps (map oracle_of [w_none; w_other_order; w_none]) in
-  map fst (firstn 2 a) = [None; None] /\ map fst (firstn 2 b) = [None; None]
-  /\ map snd (firstn 2 a) <> map snd (firstn 2 b)
-  /\ map fst a = [None; None; None] /\ map fst b = [None; None; Some EFieldOrdering].
-Proof.
-  cbv zeta. split; [vm_compute; reflexivity|]. split; [vm_compute; reflexivity|].
-  split; [vm_compute; intros H; discriminate|]. split; vm_compute; reflexivity.
-Qed.
+(* former K1: two fields at once get the identifiers of their place in the text, and the same text
+   again is accepted *)
+Lemma k1_regression :
+  let a := run_steps empty_model w_steps [] in
+  map fst a = [None; None; None] /\ map (fun r => field_ids (snd r)) a = [[(1, 32)]; [(1, 32); (3, 33); (2, 34)]; [(1, 32); (3, 33); (2, 34)]].
+Proof. cbv zeta. split; vm_compute; reflexivity. Qed.
 
-(* K2: valid for E1, invalid for E2: refused, and E1 has gained its field *)
+(* former K2: valid for E1, invalid for E2: refused, nothing changed, whichever entity is visited first *)
 Definition w_w1 : version := mkV 1 [(2, [mkED 1 false true [fS 1] []; mkED 2 false true [fS 1; fS 2] []])].
 Definition w_w2 : version := mkV 2 [(2, [mkED 1 false true [fS 1; fSn 2] []; mkED 2 false true [fS 1] []])].
-Definition w_e1_first : otab := mkOT [] [(2, 1, 0); (2, 2, 1)] [] [].
-Definition w_e2_first : otab := mkOT [] [(2, 1, 1); (2, 2, 0)] [] [].
-Lemma k2_witness :
+Definition w_e1_first : otab := mkOT [] [(2, 1, 0); (2, 2, 1)] [].
+Definition w_e2_first : otab := mkOT [] [(2, 1, 1); (2, 2, 0)] [].
+Lemma k2_regression :
   let M := fst (upd zero_oracle false empty_model w_w1) in
   snd (upd zero_oracle false empty_model w_w1) = None /\
-  snd (upd (oracle_of w_e1_first) false M w_w2) = Some EMissingField /\ fst (upd (oracle_of w_e1_first) false M w_w2) <> M /\
-  snd (upd (oracle_of w_e2_first) false M w_w2) = Some EMissingField /\ fst (upd (oracle_of w_e2_first) false M w_w2) = M.
-Proof.
-  cbv zeta. split; [vm_compute; reflexivity|]. split; [vm_compute; reflexivity|].
-  split; [vm_compute; intros H; discriminate|]. split; vm_compute; reflexivity.
-Qed.
+  upd (oracle_of w_e1_first) false M w_w2 = (M, Some EMissingField) /\
+  upd (oracle_of w_e2_first) false M w_w2 = (M, Some EMissingField).
+Proof. cbv zeta. repeat split; vm_compute; reflexivity. Qed.
 
-(* the same, judged by the functions the harness evaluates *)
-Definition w_case_k1 : c15case := CBare w_steps [[w_none; w_text_order; w_none]; [w_none; w_other_order; w_none]].
-Definition w_case_k2 : c15case := CBare [mkS false w_w1; mkS false w_w2] [[w_none; w_e1_first]; [w_none; w_e2_first]].
+(* the same, and the former K3 (refusal at run time reported), judged by the functions the harness evaluates *)
+Definition w_case_k1 : c15case := CBare w_steps [[w_none; w_none; w_none]; [w_none; w_none; w_none]].
+Definition w_case_k2 : c15case := CBare [mkS false w_w1; mkS false w_w2; mkS false w_w1] [[w_none; w_e1_first; w_none]; [w_none; w_e2_first; w_none]].
 Definition w_case_k3 : c15case :=
-  CInst [(true, mkS false w_w1); (false, mkS false (mkV 2 [(2, [mkED 1 false true [fS 1] []])]))] [w_none; w_none].
+  CInst [(true, mkS false w_w1); (false, mkS false (mkV 2 [(2, [mkED 1 false true [fS 1] []])])); (true, mkS false w_w1)] [w_none; w_none; w_none].
 Lemma spec_witnesses :
-  spec_C15 w_case_k1 (run_C15 w_case_k1) = false /\ known_C15 w_case_k1 = [1; 2]%Z /\
-  spec_C15 w_case_k2 (run_C15 w_case_k2) = false /\ known_C15 w_case_k2 = [2]%Z /\
-  spec_C15 w_case_k3 (run_C15 w_case_k3) = false /\ known_C15 w_case_k3 = [2; 3]%Z.
+  spec_C15 w_case_k1 (run_C15 w_case_k1) = true /\ spec_C15 w_case_k2 (run_C15 w_case_k2) = true /\
+  spec_C15 w_case_k3 (run_C15 w_case_k3) = true /\
+  map fst (run_inst_obs empty_model false [(true, mkS false w_w1); (false, mkS false (mkV 2 [(2, [mkED 1 false true [fS 1] []])])); (true, mkS false w_w1)] []) = [true; false; true].
 Proof. repeat split; vm_compute; reflexivity. Qed.
-
-(* hypotheses of the "outside known" theorems are satisfiable by non-trivial histories *)
-Definition w_v3 : version := mkV 3 [(2, [mkED 1 false true [fS 1; fSn 2] []; mkED 2 false true [fS 1] []]); (0, [mkED 1 false true [fS 1] []])].
-Definition w_v4 : version := mkV 4 [(2, [mkED 1 false true [fS 1; fSn 2; mkFD 3 TInt (Some 1) false false] []; mkED 2 true true [fS 1; fSn 5] []]); (0, [mkED 1 false true [fS 1] []])].
-Definition w_bad : version := mkV 5 [(2, [mkED 1 false true [fS 1; fS 1] []])].
-Definition w_case_clean : c15case :=
-  CBare [mkS false w_v1; mkS false w_v3; mkS false w_bad; mkS false w_v4; mkS false w_v4] [[w_none; w_none; w_none; w_none; w_none]; [w_none; w_e2_first; w_none; w_e2_first; w_none]].
-Lemma clean_witness :
-  known_C15 w_case_clean = [] /\ spec_C15 w_case_clean (run_C15 w_case_clean) = true /\
-  known_steps empty_model [mkS false w_v1; mkS false w_v3; mkS false w_bad; mkS false w_v4; mkS false w_v4] [] = (false, false) /\
-  map fst (run_steps empty_model [mkS false w_v1; mkS false w_v3; mkS false w_bad; mkS false w_v4; mkS false w_v4] []) = [None; None; Some EDupField; None; None].
-Proof. repeat split; vm_compute; reflexivity. Qed.
-
-(* ------------------------------------------------------------------ refused steps of a history outside K2 *)
-Theorem run_steps_refused_unchanged : forall steps os M,
-  snd (known_steps M steps os) = false -> refused_unchanged M (run_steps M steps os).
-Proof.
-  induction steps as [|s steps IH]; intros os M Hk; cbn [run_steps]; [exact I|].
-  cbn [known_steps] in Hk.
-  destruct (upd (hd zero_oracle os) (s_sys s) M (s_ver s)) as [M1 e1] eqn:H1.
-  destruct (known_steps M1 steps (tl os)) as [k1 k2] eqn:Hks. cbn [snd] in Hk.
-  apply orb_false_iff in Hk. destruct Hk as [Hk2a Hk2b]. cbn [refused_unchanged]. split.
-  - intros Hne. destruct e1 as [e|]; [|congruence].
-    pose proof (refused_outside_loops_changes_nothing (hd zero_oracle os) (s_sys s) M (s_ver s) e) as Hr.
-    rewrite H1 in Hr. cbn [fst snd] in Hr. apply Hr; [reflexivity | exact Hk2a].
-  - apply IH. rewrite Hks. exact Hk2b.
-Qed.
 
 (* ------------------------------------------------------------------ readers that address values by identifier *)
 Lemma list_ext_findk : forall A (key : A -> N) (R : A -> A -> Prop) Q l l' a,
@@ -441,13 +347,3 @@ Proof.
   intros ns e f a Ha. pose proof (address_stable (hd zero_oracle os) (s_sys s) M (s_ver s) ns e f a Hwf Ha) as H. rewrite Hu in H. exact H.
 Qed.
 
-(* ------------------------------------------------------------------ the same model again *)
-Theorem upd_again : forall o o' sys M v, wf_model (m_nss M) -> k1_step M (mkS sys v) = false ->
-  snd (upd o sys M v) = None -> upd o' sys (fst (upd o sys M v)) v = (fst (upd o sys M v), None).
-Proof.
-  intros o o' sys M v Hwf Hk Hok. unfold k1_step in Hk. cbn [s_sys s_ver] in Hk.
-  destruct (parse (if sys then 0 else 1) v) as [P|pe] eqn:Hp.
-  - apply (upd_again_gen o o' sys M v P Hwf Hp); [|exact Hok].
-    intros n Hn p Hfp e He q Hq. apply (multi_new_false _ _ Hk n Hn p Hfp e He q Hq).
-  - unfold upd in Hok. rewrite Hp in Hok. discriminate.
-Qed.
